@@ -422,6 +422,7 @@ func runCases(ctx *Ctx, cases []Case, par int) {
 	workerAllocEvents = nil
 	workerMu.Unlock()
 	allocAudit(ctx, cases, ops, impl)
+	orderCheck(ctx, cases, ops, impl)
 	// 2. driver lines
 	var lines []string
 	type ref struct{ idx int; kind byte }
@@ -519,6 +520,42 @@ func runCases(ctx *Ctx, cases []Case, par int) {
 			}
 		}
 	}
+}
+
+// ---- order independence ----------------------------------------------------------------------------------------
+//
+// After the parallel pass every deterministic case is run once more, on one goroutine and in REVERSE order: what an op
+// answers must not depend on which other calls came before it (result caches with ambiguous keys, pooled buffers that keep
+// bytes of an earlier call, package-level instances).  Excluded: ops that read the clock or a random source (those have a
+// ReadBack), properties whose ops talk over sockets or record schedules (noOrderCheck), panics and time-outs.
+var noOrderCheck = map[string]bool{"C11": true, "C17": true, "C18": true}
+
+func orderCheck(ctx *Ctx, cases []Case, ops map[string]OpDef, impl []implResult) {
+	if noOrderCheck[ctx.Prop.ID] {
+		return
+	}
+	checked, differ := 0, 0
+	for i := len(cases) - 1; i >= 0; i-- {
+		od, ok := ops[cases[i].Op]
+		if !ok || od.ReadBack != nil || impl[i].out == "panic" || impl[i].out == "timeout" || impl[i].out == "harness-error" {
+			continue
+		}
+		if strings.HasPrefix(cases[i].Op, "c11.") || strings.HasPrefix(cases[i].Op, "c17.") || strings.HasPrefix(cases[i].Op, "c18.") {
+			continue
+		}
+		r := runImpl(od.Impl, cases[i].MArgs, 20*time.Second)
+		checked++
+		if r.out != impl[i].out && differ < 50 {
+			differ++
+			c := cases[i]
+			ctx.AddMismatch(Mismatch{Kind: "spec", Case: c, Spec: truncS(impl[i].out), Size: caseSize(c), Stack: r.stack,
+				Impl: "the same call answered differently when the cases ran in reverse order: " + truncS(r.out) + "   (first pass: " + truncS(impl[i].out) + ")"})
+		}
+	}
+	if ctx.Res.Extra == nil {
+		ctx.Res.Extra = map[string]any{}
+	}
+	ctx.Res.Extra["order_check"] = map[string]any{"cases_rerun_in_reverse_order": checked, "answers_that_differed": differ}
 }
 
 // ---- allocation audit ("without allocating memory out of proportion to the input") ---------------------------
